@@ -164,7 +164,7 @@ func (p *Path) callSSA(th *thread, caller *frame, callpos token.Pos, fn *ssa.Fun
 	if caller != nil && (fn.Synthetic == "package initializer" || strings.HasPrefix(fn.Name(), "init#")) {
 		return nil // nested package initialisers and user init() functions are not run
 	}
-	if fn.Parent() == nil {
+	if fn.Parent() == nil && !(p.kRandomReal && name == mlPkg+".kRandomNodes") {
 		if in := p.ex.intrinsic(fn, name); in != nil {
 			return in(p, th, caller, callpos, fn, args)
 		}
